@@ -170,6 +170,28 @@ FIRST = {"func": None, "static": None, "static_inner": None, "inst": "self", "cl
          "klass": "self", "klass_static": None, "klass_cls": "cls"}
 
 
+def options_src(opts):
+    return "Options(" + ", ".join(f"{k}={v['type'] if isinstance(v, dict) else repr(v)}" for k, v in sorted(opts.items())) + ")"
+
+
+def build_type(d, utype, typing):
+    """a return annotation from its descriptor, with the real operators: leaves int/str/none/posint/short,
+    ["or"|"and"|"xor", a, b, …], ["not", a], ["opt", a]"""
+    from utype.parser.rule import LogicalType, Rule
+    if isinstance(d, str):
+        if d == "posint":
+            return type("PosInt", (int, Rule), {"gt": 0})
+        if d == "short":
+            return type("Short", (str, Rule), {"max_length": 3})
+        return {"int": int, "str": str, "none": type(None)}[d]
+    op, args = d[0], [build_type(a, utype, typing) for a in d[1:]]
+    if op == "opt":
+        return typing.Optional[args[0]]
+    if op == "not":
+        return LogicalType.not_of(args[0])
+    return {"or": LogicalType.any_of, "and": LogicalType.all_of, "xor": LogicalType.one_of}[op](*args)
+
+
 def build_source(case):
     """Python source of the declaration (decorated function or class)."""
     params = case["params"]
@@ -190,12 +212,11 @@ def build_source(case):
         elif gen.get("annot") == "iterator":
             ann = f" -> typing.{'AsyncIterator' if wrapper == 'agen' else 'Iterator'}[{y or 'typing.Any'}]"
     elif ret:
-        ann = f" -> {ret}"
+        ann = f" -> {ret}" if isinstance(ret, str) else " -> __RET__"
     opts = case.get("options") or {}
     dec_args = []
     if opts:
-        dec_args.append("options=Options(" + ", ".join(
-            f"{k}={v['type'] if isinstance(v, dict) else repr(v)}" for k, v in sorted(opts.items())) + ")")
+        dec_args.append("options=" + options_src(opts))
     if case.get("eager"):
         dec_args.append("eager=True")
     dec = "@utype.parse" + (f"({', '.join(dec_args)})" if dec_args else "")
@@ -328,6 +349,11 @@ def impl(case):
     ns["__rec__"] = rec
     ns["__echo__"] = echo
     ns["__sent__"] = lambda x: log["sent"].append(enc(x))
+    ret_d = case.get("ret")
+    RET = None
+    if ret_d:
+        RET = build_type(ret_d, utype, typing)
+        ns["__RET__"] = RET
     src = build_source(case)
     try:
         exec(src, ns)
@@ -394,6 +420,44 @@ def impl(case):
     except BaseException as e:
         out["err"] = _exc_name(e)
         out["err_cls"] = type(e).__name__
+    if RET is not None and case.get("retval") is not None and wrapper in ("sync", "coro"):
+        # the return annotation measured in isolation: what the type itself makes of the body's result, and whether the
+        # value the caller got conforms to it (the type accepts it unchanged)
+        ropts = eval(options_src({k: v for k, v in (case.get("options") or {}).items() if k != "addition"}), ns)
+        rv = case["retval"]["v"]
+        from utype.parser.rule import Rule
+        RETT = Rule.parse_annotation(annotation=RET)      # typing constructs (Optional[...]) as utype reads them
+        try:
+            out["ret_direct"] = {"ok": enc(utype.type_transform(rv, RETT, options=ropts))}
+        except BaseException as e:
+            out["ret_direct"] = {"err": _exc_name(e)}
+        if "ret" in out:
+            # Conforms (DESIGN C01): a leaf accepts the value unchanged; `|` / `^`: some argument does; `&`: the last
+            # argument does; `~t`: t rejects it; Optional: None or the argument
+            def accepts(d, v):
+                try:
+                    r = utype.type_transform(v, Rule.parse_annotation(annotation=build_type(d, utype, typing)), options=ropts)
+                    return type(r) is type(v) and r == v
+                except BaseException:
+                    return False
+
+            def conforms(d, v):
+                if isinstance(d, str):
+                    return accepts(d, v)
+                if d[0] in ("or", "xor"):
+                    return any(conforms(a, v) for a in d[1:])
+                if d[0] == "and":
+                    return conforms(d[-1], v)
+                if d[0] == "opt":
+                    return v is None or conforms(d[1], v)
+                if d[0] == "not":
+                    try:
+                        utype.type_transform(v, Rule.parse_annotation(annotation=build_type(d[1], utype, typing)), options=ropts)
+                        return False
+                    except BaseException:
+                        return True
+            got = dec(out["ret"])
+            out["ret_conforms"] = bool(conforms(ret_d, got)) if not isinstance(ret_d, str) else None
     if gen is not None and "decl_err" not in out:
         # the undecorated function driven the same way: sends converted by the oracle, hand-overs followed
         # (a yielded generator takes over and is started with next()); raw yields / return recorded
@@ -898,6 +962,41 @@ def gen_options(rng, params, rate=0.35):
     return opts
 
 
+RET_LEAVES = ["int", "str", "none", "posint", "short"]
+RET_TYPES = [["not", "none"], ["and", ["or", "int", "none"], "posint"], ["xor", ["opt", "int"], ["opt", "str"]],
+             ["opt", "int"], ["or", "int", "str"], ["xor", "int", "str"], ["not", "posint"], ["or", "posint", "short"],
+             ["and", "int", "posint"], ["opt", ["or", "int", "str"]], ["or", "none", "str"], ["not", ["or", "int", "none"]],
+             ["xor", "int", "posint"], ["opt", "posint"], ["and", ["opt", "int"], ["not", "none"]],
+             ["xor", ["or", "int", "none"], ["or", "str", "none"]], ["or", ["not", "none"], "int"], ["not", ["not", "none"]]]
+RET_VALUES = [None, None, 5, "6", "x", 0, -1, "", "abcd", "7"]
+
+
+def gen_ret_type(rng, depth=2):
+    if rng.random() < 0.6:
+        return rng.choice(RET_TYPES)
+
+    def rec(d):
+        if d == 0 or rng.random() < 0.35:
+            return rng.choice(RET_LEAVES)
+        op = rng.choice(["or", "and", "xor", "not", "opt"])
+        if op in ("not", "opt"):
+            return [op, rec(d - 1)]
+        return [op] + [rec(d - 1) for _ in range(rng.choice([2, 2, 3]))]
+    t = rec(depth)
+    return t if not isinstance(t, str) else ["opt", t]
+
+
+def ret_grid_cases():
+    """every return annotation of RET_TYPES x every result value x sync / coroutine (eager and lazy)"""
+    out = []
+    for t in RET_TYPES:
+        for v in [None, 5, "6", "x", 0, -1, "", "abcd"]:
+            for wrapper, eager in (("sync", False), ("coro", False), ("coro", True)):
+                out.append({"kind": "bind", "params": [], "ctx": "func", "wrapper": wrapper, "eager": eager, "options": {},
+                            "ret": t, "retval": {"v": v}, "args": [], "kwargs": []})
+    return out
+
+
 def gen_binding_case(rng, tier="quick"):
     params = gen_sig(rng)
     opts = gen_options(rng, params)
@@ -915,6 +1014,10 @@ def gen_binding_case(rng, tier="quick"):
         elif r < 0.4:
             case["ret"] = "str"
             case["retval"] = {"v": rng.choice([5, "y"])}
+        elif r < 0.6:
+            # a logical combination as the return annotation, a result each member may judge differently (None included)
+            case["ret"] = gen_ret_type(rng)
+            case["retval"] = {"v": rng.choice(RET_VALUES)}
         else:
             case["retval"] = {"v": rng.choice([1, "r"])}
     case["args"], case["kwargs"] = gen_call(rng, params, opts)
@@ -1208,7 +1311,20 @@ def verdict(case, out, ex, nobind_err=None):
     if out.get("first_ok") is False:
         return "reserved first parameter (self/cls) is not the instance/class"
     w = case.get("wrapper", "sync")
-    if w in ("sync", "coro"):
+    if w in ("sync", "coro") and "ret_direct" in out:
+        d = out["ret_direct"]
+        if "ok" in d:
+            if "err" in out or out.get("ret") != d["ok"]:
+                return (f"return value: the annotation itself turns {case['retval']['v']!r} into {d['ok']}, the decorated "
+                        f"function returned {out.get('ret')} err={out.get('err')}")
+            # (`ret_conforms` — the recorded C01-style Conforms verdict on the value the type itself produced — is not
+            # judged here: whether a combinator's own output conforms to it is C01/C09's subject, e.g. `None & int`
+            # turns None into 0; C08's clause is that the function's glue adds or removes nothing.)
+        elif out.get("err") != "ParseError":
+            return (f"return value {case['retval']['v']!r} is rejected by the return annotation {case.get('ret')} itself "
+                    f"({d['err']}) but the decorated function returned {out.get('ret')} err={out.get('err')}")
+    if w in ("sync", "coro") and (case.get("ret") is None or isinstance(case.get("ret"), str)) \
+            and case.get("retval", {}).get("v") is not None:
         rv = case.get("retval", {}).get("v")
         ok, c = conv(case.get("ret"), rv)
         if ok:
@@ -1216,7 +1332,7 @@ def verdict(case, out, ex, nobind_err=None):
                 return f"return value: expected {enc(c)}, got {out.get('ret')} err={out.get('err')}"
         elif out.get("err") != "ParseError":
             return f"return value {rv!r} does not conform to {case.get('ret')} but no ParseError: {out.get('ret')} {out.get('err')}"
-    elif case.get("gen") is None:
+    if w not in ("sync", "coro") and case.get("gen") is None:
         if out.get("trace") != [["y", enc(0)]]:
             return f"generator trace {out.get('trace')}"
     return None
@@ -1301,6 +1417,8 @@ def is_nontrivial(case, ex):
     if case["kind"] == "gen":
         g = case["gen"]
         return bool(g["steps"] or g.get("chain")) and (any(x is not None for x in g["sends"]) or any(g.get(k) for k in ("yt", "st", "rt")))
+    if case.get("ret") is not None and not isinstance(case["ret"], str):
+        return ex[0] in ("ok",)
     return ex[0] in ("ok", "fail") and len(case["params"]) >= 1 and (len(case["args"]) + len(case["kwargs"]) >= 1
                                                                        or any(p.get("default") for p in case["params"]))
 
@@ -1400,12 +1518,25 @@ class C08(Check):
         if tier != "search":
             out += exhaustive_gen_cases(3 if tier == "quick" else 4)
             out += option_grid_cases()
+            out += ret_grid_cases()
         if tier == "thorough":
             out += exhaustive_cases()
         for _ in range(n):
             r = rng.random()
             out.append(gen_generator_case(rng) if r < 0.12 else gen_focus_case(rng) if r < 0.3 else gen_binding_case(rng, tier))
         return out
+
+    def evaluate(self, cases):
+        """the implementation first: the model is told what the return annotation, measured in isolation, does"""
+        from .common import run_driver, run_impl
+        impl_outs = run_impl(self.impl, cases, self.case_timeout, extra_env=self.impl_env)
+        lines = []
+        for c, io in zip(cases, impl_outs):
+            line = self.model_line(c)
+            if isinstance(io, dict) and "ret_direct" in io and "retval" in line:
+                line["ret_measured"] = io["ret_direct"]
+            lines.append(line)
+        return impl_outs, run_driver(self.driver, lines)
 
     def model_line(self, case):
         if case["kind"] == "gen":
@@ -1416,7 +1547,8 @@ class C08(Check):
         bound = FIRST[ctx] is not None
         line = {"kind": "bind", "params": full_params(case), "ctx": CTX_FLAGS[ctx], "options": case.get("options") or {},
                 "args": ([SELF] if bound else []) + case["args"], "kwargs": case["kwargs"],
-                "spec_params": [model_param(p) for p in case["params"]], "spec_args": case["args"], "ret": case.get("ret")}
+                "spec_params": [model_param(p) for p in case["params"]], "spec_args": case["args"],
+                "ret": case.get("ret") if isinstance(case.get("ret"), str) else None}
         if case.get("retval") and case.get("wrapper", "sync") in ("sync", "coro"):
             line["retval"] = enc(case["retval"]["v"])
         return line
